@@ -373,6 +373,20 @@ func c01Filter(c *core.Ctx, pkg *packages.Package) {
 		res := t.Run()
 		okAdj = res.OK() && (fn.Canon(adjust.Rhs[0]) == "len(p0)" || fn.Canon(adjust.Rhs[0]) == "len(instances)") && !g.NodeBefore(minDef, adjust) && adjust.Pos() < minDef.Pos()
 	}
+	if adjust != nil && !okAdj {
+		// the same adjustment written with the builtin: replicationFactor = max(replicationFactor, len(instances)), on every path before the quorum
+		rc := fn.Canon(adjust.Rhs[0])
+		rf := fn.Obj.Type().(*types.Signature).Params().At(2).Name()
+		forms := map[string]bool{}
+		for _, l := range []string{"len(p0)", "len(instances)"} {
+			for _, r := range []string{"p2", rf} {
+				forms["max("+r+", "+l+")"] = true
+				forms["max("+l+", "+r+")"] = true
+			}
+		}
+		ex := g.Exec(g.EntryLoc(), []an.Loc{g.Locate(adjust)}, func(ast.Expr, an.Store) an.Tri { return an.U }, an.ExecOpts{IgnorePanic: true})
+		okAdj = forms[rc] && ex.Must[0] && adjust.Pos() < minDef.Pos() && g.NodeBefore(adjust, minDef)
+	}
 	c.Check(okAdj, "R4", "filter:max-rf-walked", fn.Pos(), "the quorum is taken over max(replication factor, number of walked instances): RF replaced by len(instances) ⇔ len(instances) > RF, before the quorum is computed", 3)
 	// keep ⇔ IsHealthy(op, timeout, now): the decision of the filtering loop
 	{
@@ -409,18 +423,51 @@ func c01Filter(c *core.Ctx, pkg *packages.Package) {
 		}
 		if ih := an.FindFunc(pkg, "InstanceDesc.IsHealthy"); ih != nil {
 			c.Analysed(ih.String())
-			conj := map[string]bool{}
-			n := 0
-			for _, b := range ih.Graph().Blocks {
+			// truth table over the two conjuncts, whatever the control structure (conjunction, early return …)
+			ig := ih.Graph()
+			var rets []*ast.ReturnStmt
+			var locs []an.Loc
+			for _, b := range ig.Blocks {
 				if r := an.ReturnOf(b); r != nil && len(r.Results) == 1 {
-					n++
-					for _, cj := range conjuncts(r.Results[0]) {
-						conj[ih.Canon(cj)] = true
+					rets = append(rets, r)
+					locs = append(locs, ig.Locate(r))
+				}
+			}
+			bad := []string{}
+			for _, st := range []string{"T", "F"} {
+				for _, hb := range []string{"T", "F"} {
+					bd := &an.Binder{Fn: ih, Bool: map[string]string{"p0.IsInstanceInStateHealthy(recv.State)": "state", "recv.IsHeartbeatHealthy(p1, p2)": "hb"}, Row: an.Row{"state": st, "hb": hb}}
+					ex := ig.Exec(ig.EntryLoc(), locs, bd.Leaf, an.ExecOpts{})
+					mayT, mayF := false, false
+					for i, r := range rets {
+						if !ex.May[i] {
+							continue
+						}
+						switch an.EvalCond(ih.Info(), r.Results[0], an.Store{}, bd.Leaf) {
+						case an.T:
+							mayT = true
+						case an.F:
+							mayF = true
+						default:
+							mayT, mayF = true, true
+						}
+					}
+					want := st == "T" && hb == "T"
+					if (want && mayF) || (!want && mayT) || (!mayT && !mayF) {
+						bad = append(bad, fmt.Sprintf("{state=%s,heartbeat=%s}: may answer true=%v false=%v", st, hb, mayT, mayF))
 					}
 				}
 			}
-			okh := n == 1 && len(conj) == 2 && conj["p0.IsInstanceInStateHealthy(recv.State)"] && conj["recv.IsHeartbeatHealthy(p1, p2)"]
-			c.Check(okh, "R4", "func=InstanceDesc.IsHealthy", ih.Pos(), fmt.Sprintf("healthy = state accepted by the operation ∧ heartbeat within the timeout: %v", keys(conj)), 1)
+			okh := len(bad) == 0 && len(rets) > 0
+			conj := map[string]bool{"rows": true}
+			_ = conj
+			if !okh {
+				conj = map[string]bool{}
+				for _, b := range bad {
+					conj[b] = true
+				}
+			}
+			c.Check(okh, "R4", "func=InstanceDesc.IsHealthy", ih.Pos(), fmt.Sprintf("healthy ⇔ state accepted by the operation ∧ heartbeat within the timeout, on all 4 rows, whatever the control structure: %v", keys(conj)), 4)
 		} else {
 			c.Miss("R4", "func=InstanceDesc.IsHealthy", "not found")
 		}
@@ -467,8 +514,8 @@ func c01Filter(c *core.Ctx, pkg *packages.Package) {
 			}
 		}
 	}
-	if len(okRet) != 1 || len(errRet) != 1 {
-		c.Undec("R4", "filter:outcome", fn.Pos(), "expected one success and one error return")
+	if len(okRet) != 1 || len(errRet) == 0 {
+		c.Undec("R4", "filter:outcome", fn.Pos(), "expected one success return and at least one error return")
 		return
 	}
 	_, _, done := g.LoopBlocks(loop)
@@ -476,8 +523,16 @@ func c01Filter(c *core.Ctx, pkg *packages.Package) {
 	t := an.Table{G: g, From: an.Loc{B: done, I: 0}, Opts: an.ExecOpts{NoTrack: map[types.Object]bool{inst: true}}, MayOnly: true,
 		Atoms:   []an.Atom{{Name: "cmp", Values: []string{"lt", "eq", "gt"}}},
 		Binder:  &an.Binder{Fn: fn, Cmp: map[string]string{"len(instances)|minSuccess": "cmp", "len(p0)|((p2 / 2) + 1)": "cmp", "len(instances)|((p2 / 2) + 1)": "cmp", "len(instances)|((replicationFactor / 2) + 1)": "cmp"}},
-		Targets: []an.Loc{g.Locate(okRet[0]), g.Locate(errRet[0])}, Names: []string{"success", "error"},
-		Want: func(r an.Row, i int) an.Tri { return an.FromBool((r["cmp"] != "lt") == (i == 0)) }}
+		Targets: targetsOf(g, okRet[0], errRet), Names: []string{"success", "error"},
+		Want: func(r an.Row, i int) an.Tri {
+			if i == 0 {
+				return an.FromBool(r["cmp"] != "lt")
+			}
+			if r["cmp"] != "lt" {
+				return an.F // no error return is reachable when enough healthy instances remain
+			}
+			return an.U // which of several error texts is returned does not matter
+		}}
 	res := t.Run()
 	slack := types.ExprString(okRet[0].Results[1])
 	c.Check(res.OK() && slack == "len(instances) - minSuccess" && types.ExprString(okRet[0].Results[0]) == "instances", "R4", "filter:outcome", okRet[0].Pos(), "fails ⇔ healthy instances < quorum; otherwise returns the healthy instances with MaxErrors = "+slack+": "+res.Summary(), res.Rows)
@@ -490,4 +545,12 @@ func conjuncts(e ast.Expr) []ast.Expr {
 		return append(conjuncts(b.X), conjuncts(b.Y)...)
 	}
 	return []ast.Expr{e}
+}
+
+func targetsOf(g *an.Graph, first *ast.ReturnStmt, rest []*ast.ReturnStmt) []an.Loc {
+	out := []an.Loc{g.Locate(first)}
+	for _, r := range rest {
+		out = append(out, g.Locate(r))
+	}
+	return out
 }
